@@ -14,6 +14,7 @@ import (
 	"io"
 	"strconv"
 	"strings"
+	"sync"
 
 	"github.com/klauspost/compress/gzip"
 
@@ -864,6 +865,111 @@ func run(c *hc.Ctx) error {
 			}
 		}
 		add(fmt.Sprintf("%s %d %v %v", line, refN, clean, hdrOK), out)
+	}
+
+	// ---- 5b. decoded values must not alias the input buffer (buffers are pooled and reused by the callers)
+	for i := 0; i < c.N(1500, 15000); i++ {
+		body := r.Bytes(4 * r.Range(1, 40))
+		id := i64(r)
+		scramble := func(x []byte) {
+			for j := range x {
+				x[j] ^= 0xa5
+			}
+		}
+		c.Eval(fmt.Sprintf("alias #%d len=%d", i, len(body)), true)
+		c.Count("alias")
+		{
+			var b bin.Buffer
+			_ = (&proto.MessageContainer{Messages: []proto.Message{{ID: id, SeqNo: 1, Bytes: len(body), Body: body}}}).Encode(&b)
+			src := append([]byte{}, b.Buf...)
+			var mc proto.MessageContainer
+			if err := mc.Decode(&bin.Buffer{Buf: src}); err == nil && len(mc.Messages) == 1 {
+				scramble(src)
+				if !bytes.Equal(mc.Messages[0].Body, body) {
+					c.Fail("container-aliases-buffer", "cdec "+hc.Hex(b.Buf), "decoded body changed when the input buffer was overwritten")
+				}
+			}
+		}
+		{
+			var b bin.Buffer
+			_ = (&proto.Result{RequestMessageID: id, Result: body}).Encode(&b)
+			src := append([]byte{}, b.Buf...)
+			var x proto.Result
+			if err := x.Decode(&bin.Buffer{Buf: src}); err == nil {
+				scramble(src)
+				if !bytes.Equal(x.Result, body) {
+					c.Fail("result-aliases-buffer", "rdec "+hc.Hex(b.Buf), "decoded result changed when the input buffer was overwritten")
+				}
+			}
+		}
+		{
+			var b bin.Buffer
+			_ = proto.UnencryptedMessage{MessageID: id, MessageData: body}.Encode(&b)
+			src := append([]byte{}, b.Buf...)
+			var x proto.UnencryptedMessage
+			if err := x.Decode(&bin.Buffer{Buf: src}); err == nil {
+				scramble(src)
+				if !bytes.Equal(x.MessageData, body) {
+					c.Fail("unencrypted-aliases-buffer", "udec "+hc.Hex(b.Buf), "decoded data changed when the input buffer was overwritten")
+				}
+			}
+		}
+		{
+			var b bin.Buffer
+			_ = proto.GZIP{Data: body}.Encode(&b)
+			src := append([]byte{}, b.Buf...)
+			var x proto.GZIP
+			if err := x.Decode(&bin.Buffer{Buf: src}); err == nil {
+				scramble(src)
+				if !bytes.Equal(x.Data, body) {
+					c.Fail("gzip-aliases-buffer", "gzip alias", "decoded data changed when the input buffer was overwritten")
+				}
+			}
+		}
+	}
+
+	// ---- 5c. the gzip writer/reader pools under concurrent use: every goroutine gets its own data back
+	{
+		workers, per := 8, c.N(150, 1500)
+		seeds := make([]*hc.RNG, workers)
+		for w := range seeds {
+			seeds[w] = r.Fork()
+		}
+		bad := make([]string, workers)
+		var wg sync.WaitGroup
+		for w := 0; w < workers; w++ {
+			wg.Add(1)
+			go func(w int) {
+				defer wg.Done()
+				defer func() {
+					if p := recover(); p != nil {
+						bad[w] = fmt.Sprintf("panic: %v", p)
+					}
+				}()
+				rr := seeds[w]
+				for k := 0; k < per; k++ {
+					d := bytes.Repeat(rr.Bytes(rr.Range(1, 32)), rr.Range(1, 300))
+					var b bin.Buffer
+					if err := (proto.GZIP{Data: d}).Encode(&b); err != nil {
+						bad[w] = "encode: " + err.Error()
+						return
+					}
+					var g proto.GZIP
+					if err := g.Decode(&b); err != nil || !bytes.Equal(g.Data, d) {
+						bad[w] = fmt.Sprintf("worker %d item %d: decoded %d bytes (err %v), encoded %d", w, k, len(g.Data), err, len(d))
+						return
+					}
+				}
+			}(w)
+		}
+		wg.Wait()
+		c.Eval("gzip concurrent pools", true)
+		c.Count("gzip.concurrent")
+		for _, x := range bad {
+			if x != "" {
+				c.Fail("gzip-concurrent", fmt.Sprintf("%d goroutines × %d round trips through the shared pools", workers, per), x)
+			}
+		}
 	}
 
 	// ---- 6. the generated mt types read the same frames (implementation cross-check)
